@@ -23,11 +23,49 @@ Proof. intros e V K. exists (norm e). split; [now apply roundtrip_lamok_closed|a
 Theorem C20_norm_idempotent : forall e, validb e = true -> pr (norm (norm e)) = pr (norm e) /\ pr (norm e) = pr e.
 Proof. exact norm_print_stable. Qed.
 
+(* FORMAT AS A FUNCTION on token lists: parse, then print; undefined where the parser rejects.  This is the shape of
+   format.Source: the property "formatting the formatted output again returns it unchanged" is fmt out = Some out. *)
+Definition fmt (ts : list tok) : option (list tok) :=
+  match parse ts with ROk (PE e) [] => Some (pr e) | _ => None end.
+
+Fixpoint passes (n : nat) (ts : list tok) : option (list tok) :=
+  match n with O => Some ts | S n' => match fmt ts with Some out => passes n' out | None => None end end.
+
+(* idempotence proper: whatever the first pass returns, the second pass accepts it and returns it unchanged *)
+Theorem C20_format_idempotent : forall ts out, fmt ts = Some out -> fmt out = Some out.
+Proof.
+  unfold fmt. intros ts out H.
+  destruct (parse ts) as [v r| | |] eqn:P; try discriminate. destruct v as [e|items ell]; try discriminate.
+  destruct r as [|t r]; try discriminate. injection H as <-.
+  destruct (C20_second_pass_same_tokens ts e P) as (e' & Q & R). rewrite Q. now rewrite R.
+Qed.
+
+(* ... and so does every later pass: the output of the first pass is a fixed point of any number of passes *)
+Theorem C20_every_later_pass_unchanged : forall n ts out, fmt ts = Some out -> passes n out = Some out.
+Proof.
+  induction n as [|n IH]; intros ts out H; cbn [passes]; [reflexivity|].
+  rewrite (C20_format_idempotent ts out H). exact (IH out out (C20_format_idempotent ts out H)).
+Qed.
+
+(* n+1 passes over the source give what one pass gives; the formatter never starts rejecting its own output *)
+Theorem C20_passes_collapse : forall n ts out, fmt ts = Some out -> passes (S n) ts = Some out.
+Proof. intros n ts out H. cbn [passes]. rewrite H. exact (C20_every_later_pass_unchanged n ts out H). Qed.
+
 Definition ex : expr := EBin xgo_MUL (EBin xgo_ADD (EId [97%N]) (EId [98%N])) (EUn xgo_SUB (EBin xgo_SUB (EId [97%N]) (EId [98%N]))).
 Example C20_example : validb ex = true /\ lamokb ex = true /\ norm ex <> ex /\ pr (norm ex) = pr ex /\
   parse (pr (norm ex)) = ROk (PE (norm ex)) [].
 Proof. vm_compute. repeat split; try reflexivity. discriminate. Qed.
 
+(* non-vacuity: tokens of  ((a + b)) * -c  are accepted; the first pass changes them (drops a doubled parenthesis),
+   three further passes change nothing *)
+Definition ex_src : list tok :=
+  [TOp xgo_LPAREN; TOp xgo_LPAREN; TId [97%N]; TOp xgo_ADD; TId [98%N]; TOp xgo_RPAREN; TOp xgo_RPAREN; TOp xgo_MUL; TOp xgo_SUB; TId [99%N]].
+Example C20_example_passes : exists out, fmt ex_src = Some out /\ out <> ex_src /\ passes 4 ex_src = Some out.
+Proof. eexists. vm_compute. repeat split; try reflexivity. discriminate. Qed.
+
 Print Assumptions C20_second_pass_same_tokens.
 Print Assumptions C20_print_parse_print_partial.
 Print Assumptions C20_norm_idempotent.
+Print Assumptions C20_format_idempotent.
+Print Assumptions C20_every_later_pass_unchanged.
+Print Assumptions C20_passes_collapse.
